@@ -36,6 +36,14 @@ def _rec(hid, args):
     return b'ok'
 
 
+def _seen(vpath):
+    """called first thing by every hand-written _cp_dispatch: what the dispatcher handed it (recorded during the real
+    request only, not while the harness tabulates the dispatcher for the model)"""
+    W = CURRENT[0]
+    if W is not None:
+        W.seen.append(list(vpath))
+
+
 class World:
     """the real objects of one tree spec"""
 
@@ -48,6 +56,8 @@ class World:
         self.recording = set()   # ids of callables that record their call
         self.classes = set()
         self.calls = []
+        self.seen = []
+        self.has_popargs = False
         self.disp = None
         self.marks = []      # (what, object, expected truth of `exposed`) as the decorators were applied
         self.root = self.build(spec)
@@ -79,10 +89,11 @@ class World:
         assert t == 'obj'
         oid = spec['id']
         fnreg = {}
-        ns = {'cherrypy': self.cherrypy, '_rec': _rec, '_fnreg': fnreg}
+        ns = {'cherrypy': self.cherrypy, '_rec': _rec, '_fnreg': fnreg, '_seen': _seen}
         L = []
         disp = spec.get('disp')
         if disp and disp['k'] == 'popargs':
+            self.has_popargs = True
             h = disp.get('h')
             if h:
                 hobj = self.build(h['obj'])
@@ -126,27 +137,42 @@ class World:
             k = disp['k']
             if k == 'pop':
                 L += ['    def _cp_dispatch(self, vpath):',
+                      '        _seen(vpath)',
                       '        for _ in range(%d):' % disp['n'],
                       '            if vpath:',
                       '                vpath.pop(0)',
                       '        return %s' % self.ret_expr(disp.get('ret'))]
             elif k == 'peek':
                 L += ['    def _cp_dispatch(self, vpath):',
+                      '        _seen(vpath)',
                       '        return getattr(self, vpath[0], None) if vpath else None']
             elif k == 'add':
                 L += ['    def _cp_dispatch(self, vpath):',
+                      '        _seen(vpath)',
                       '        vpath.append("zz")',
                       '        return self']
             elif k == 'popend':
                 L += ['    def _cp_dispatch(self, vpath):',
+                      '        _seen(vpath)',
                       '        if vpath:',
                       '            vpath.pop()',
                       '        return %s' % self.ret_expr(disp.get('ret'))]
+            elif k == 'table':
+                # children looked up by the segment as it is spelled in the URL (a dict keyed by 'v1.0', 'a-b', ...)
+                L += ['    def _cp_dispatch(self, vpath):',
+                      '        _seen(vpath)',
+                      '        if not vpath:',
+                      '            return None',
+                      '        hit = %r.get(vpath[0])' % (dict(disp['tbl']),),
+                      '        if hit is None:',
+                      '            return None',
+                      '        vpath.pop(0)',
+                      '        return self if hit == "@self" else getattr(self, hit, None)']
             elif k == 'popargs' and disp.get('as') != 'class':
                 L.append('    _cp_dispatch = cherrypy.popargs(%s)' % self.popargs_args(disp))
             elif k == 'val':
                 L.append('    _cp_dispatch = %r' % (disp['v'],))
-            if disp.get('ex') and k in ('pop', 'peek', 'add', 'popend'):
+            if disp.get('ex') and k in ('pop', 'peek', 'add', 'popend', 'table'):
                 L.append('    _cp_dispatch.exposed = True')
         if disp and disp['k'] == 'popargs':
             # for the oracle's reference of what cherrypy.popargs must consume
@@ -360,6 +386,7 @@ VARIANT = {'a_b': ['a_b', 'a.b', 'a-b', 'a+b', 'a~b', 'a:b', 'a,b'], 'x_y': ['x_
            '_': ['.', '_', '-', ';'], '__': ['..', '__', '.-']}
 EXTRA = ['zz', 'q', '7', 'x%2Fy', '%2F', 'index', 'default', '__class__', '__doc__', '__call__',
          '__init__', '__dict__', 'exposed', '_cp_dispatch', '_cp_config', 'ü', 'a b', 'A', 'Index']
+TABLE_KEYS = ['v1.0', 'a-b', 'x.y', 'q', 'k~1', 'x%2Fy', 'zz', 'a.b', '-p']
 METHODS = ['GET', 'GET', 'GET', 'HEAD', 'POST', 'PUT', 'DELETE', 'get', 'Post', 'OPTIONS']
 EXV = [True, False, 1, 0, 'yes', '']
 
@@ -410,9 +437,12 @@ class C02(core.Check):
         return f
 
     def gen_disp(self, rng, ids, depth, attr_names):
-        k = rng.choice(['pop', 'pop', 'peek', 'add', 'popend', 'popargs', 'popargs', 'val'])
+        k = rng.choice(['pop', 'pop', 'peek', 'add', 'popend', 'popargs', 'popargs', 'val', 'table', 'table'])
         d = {'k': k}
         rets = [None, '@self'] + list(attr_names)
+        if k == 'table':
+            keys = rng.sample(TABLE_KEYS, rng.choice([1, 2, 3]))
+            d['tbl'] = [[key, rng.choice(rets[1:])] for key in keys]
         if k == 'pop':
             d['n'] = rng.choice([0, 1, 1, 2, 3])
             d['ret'] = rng.choice(rets)
@@ -481,6 +511,13 @@ class C02(core.Check):
         segs = []
         cur = tree
         while cur is not None and cur['t'] == 'obj' and cur['attrs'] and rng.random() < .8 and len(segs) < 5:
+            disp = cur.get('disp')
+            if disp and disp['k'] == 'table' and rng.random() < .6:
+                key, ret = rng.choice(disp['tbl'])      # a child reached through the node's own lookup table
+                segs.append(key)
+                if ret != '@self':
+                    cur = dict(cur['attrs']).get(ret)
+                continue
             name, ch = rng.choice(cur['attrs'])
             if any(c in name for c in '/?#'):
                 break
@@ -695,6 +732,7 @@ class C02(core.Check):
         W = self.world(c)
         CURRENT[0] = W
         W.calls = []
+        W.seen = []
         W.disp = None
         app = self.app_for(W, c)
         hdrs = [] if c['method'].upper() in ('GET', 'HEAD') else [('Content-Length', '0')]
@@ -702,7 +740,7 @@ class C02(core.Check):
         CURRENT[0] = None
         d = W.disp or {}
         obs = {'status': res['status'], 'allow': wsgi.header(res, 'Allow'), 'calls': W.calls,
-               'dispatch': d, 'escaped': res['escaped']}
+               'dispatch': d, 'escaped': res['escaped'], 'seen': W.seen[:1]}
         self.count('mode:%s' % ('method' if c['mode'] else 'default'))
         self.count('status:%s' % res['status'])
         self.count('segments:%d' % len(self.segs_of(c['path_info'])))
@@ -804,6 +842,13 @@ class C02(core.Check):
                 fails.append(('expose-alias', '%s is not installed in the class namespace' % what))
             elif bool(getattr(o, 'exposed', False)) != exp:
                 fails.append(('expose-mark', '%s: `exposed` is %r' % (what, getattr(o, 'exposed', None))))
+        if obs.get('seen') and not W.has_popargs:
+            # the first _cp_dispatch consulted gets the not yet matched segments of the request path, as spelled (the
+            # hidden index token is documented not to be shown to it)
+            full = self.segs_of(c['path_info'])
+            if not any(obs['seen'][0] == full[i:] for i in range(len(full) + 1)):
+                fails.append(('dispatch-saw-altered-segments', 'the first _cp_dispatch consulted was handed %r, which is '
+                              'not a tail of the request path %r' % (obs['seen'][0], full)))
         if len(obs['calls']) > 1:
             fails.append(('several-handlers', 'more than one handler ran: %r' % obs['calls']))
         if obs['dispatch'].get('exc'):
